@@ -7,7 +7,7 @@ Core Lean only.
 -/
 namespace Goyang.Lemmas.Indent
 open Goyang.Model.Indent
-open Goyang.Spec.Indent (cutState tagged render callerBytesIn atStartAfter)
+open Goyang.Spec.Indent (cutState tagged render callerBytesIn atStartAfter history pending accepted finalState)
 
 theorem specNL : Goyang.Spec.Indent.NL = NL := rfl
 
@@ -508,5 +508,221 @@ theorem write_some_eq (pre : Bytes) (p : Bool) {buf : Bytes} (h : buf ≠ []) (k
   have hs := partialAfter_write pre p h k
   simp only [write, List.isEmpty_iff, h, if_false, hj, hw, hc, hs, ← List.take_eq_take_min,
     Option.isNone_some]
+
+/-! ### what a history leaves with the underlying writer -/
+
+/-- `cutState` on the tagged list. -/
+def cutAt (t : List (UInt8 × Bool)) (a : Bool) (k : Nat) : Option Bool :=
+  match min k t.length with
+  | 0 => some a
+  | j + 1 =>
+    match t[j]? with
+    | some (b, true) => some (b == NL)
+    | some (_, false) =>
+      match t[j + 1]? with
+      | some (_, false) => none
+      | _ => some false
+    | none => some a
+
+theorem cutState_eq_cutAt (pre : Bytes) (a : Bool) (s : Bytes) (k : Nat) :
+    cutState pre a s k = cutAt (tagged pre a s) a k := rfl
+
+theorem countP_tp (q : Bytes) : (tp q).countP (·.2) = 0 := by
+  have := countP_take_tp q (tp q).length
+  rwa [List.take_length] at this
+
+theorem tagged_cons' (pre : Bytes) (a : Bool) (b : UInt8) (r : Bytes) :
+    tagged pre a (b :: r) = tp (if a then pre else []) ++ (b, true) :: tagged pre (b == NL) r := by
+  cases a <;> simp [tagged, tp, specNL]
+
+theorem cutAt_zero (t : List (UInt8 × Bool)) (a : Bool) : cutAt t a 0 = some a := by
+  simp [cutAt]
+
+theorem cutAt_inside (q : Bytes) (x : UInt8 × Bool) (t' : List (UInt8 × Bool)) (a : Bool) (k : Nat)
+    (h0 : 0 < k) (hk : k < q.length) : cutAt (tp q ++ x :: t') a k = none := by
+  obtain ⟨j, rfl⟩ : ∃ j, k = j + 1 := ⟨k - 1, by omega⟩
+  have hmin : min (j + 1) (tp q ++ x :: t').length = j + 1 := by simp; omega
+  have e1 : (tp q ++ x :: t')[j]? = some (q[j], false) := by
+    rw [List.getElem?_append_left (by simp; omega), tp_getElem?]; simp [show j < q.length by omega]
+  have e2 : (tp q ++ x :: t')[j + 1]? = some (q[j + 1], false) := by
+    rw [List.getElem?_append_left (by simp; omega), tp_getElem?]; simp [hk]
+  simp only [cutAt, hmin, e1, e2]
+
+theorem cutAt_after_prefix (q : Bytes) (b : UInt8) (t' : List (UInt8 × Bool)) (a : Bool)
+    (h0 : 0 < q.length) : cutAt (tp q ++ (b, true) :: t') a q.length = some false := by
+  obtain ⟨j, hj⟩ : ∃ j, q.length = j + 1 := ⟨q.length - 1, by omega⟩
+  have hmin : min q.length (tp q ++ (b, true) :: t').length = j + 1 := by simp; omega
+  have e1 : (tp q ++ (b, true) :: t')[j]? = some (q[j], false) := by
+    rw [List.getElem?_append_left (by simp; omega), tp_getElem?]; simp [show j < q.length by omega]
+  have e2 : (tp q ++ (b, true) :: t')[j + 1]? = some (b, true) := by
+    rw [List.getElem?_append_right (by simp; omega)]; simp [hj]
+  simp only [cutAt, hmin, e1, e2]
+
+theorem cutAt_shift (q : Bytes) (b : UInt8) (t' : List (UInt8 × Bool)) (a : Bool) (k2 : Nat) :
+    cutAt (tp q ++ (b, true) :: t') a (q.length + 1 + k2) = cutAt t' (b == NL) k2 := by
+  cases hm : min k2 t'.length with
+  | zero =>
+    have hmin : min (q.length + 1 + k2) (tp q ++ (b, true) :: t').length = q.length + 1 := by
+      simp; omega
+    have e1 : (tp q ++ (b, true) :: t')[q.length]? = some (b, true) := by
+      rw [List.getElem?_append_right (by simp)]; simp
+    simp only [cutAt, hmin, hm, e1]
+  | succ j2 =>
+    have hj2 : j2 < t'.length := by omega
+    have hmin : min (q.length + 1 + k2) (tp q ++ (b, true) :: t').length = (q.length + 1 + j2) + 1 := by
+      simp; omega
+    have e1 : (tp q ++ (b, true) :: t')[q.length + 1 + j2]? = t'[j2]? := by
+      rw [List.getElem?_append_right (by simp; omega)]
+      simp only [tp_length]
+      have : q.length + 1 + j2 - q.length = j2 + 1 := by omega
+      rw [this]; simp
+    have e2 : (tp q ++ (b, true) :: t')[q.length + 1 + j2 + 1]? = t'[j2 + 1]? := by
+      rw [List.getElem?_append_right (by simp; omega)]
+      simp only [tp_length]
+      have : q.length + 1 + j2 + 1 - q.length = (j2 + 1) + 1 := by omega
+      rw [this]; simp
+    have hs : ∃ x, t'[j2]? = some x := ⟨_, List.getElem?_eq_getElem hj2⟩
+    obtain ⟨x, hx⟩ := hs
+    simp only [cutAt, hmin, hm, e1, e2, hx]
+    obtain ⟨xb, xt⟩ := x
+    cases xt <;> rfl
+
+/-- One short write: what the underlying writer took is the rendering of the counted bytes, plus the
+prefix of the next line when the cut fell exactly after it; and the state at the cut is the state
+after the counted bytes, except in that case. -/
+theorem take_render (pre : Bytes) (a : Bool) (c : Bytes) (k : Nat) (a' : Bool)
+    (h : cutState pre a c k = some a') :
+    (render pre a c).take k =
+      render pre a (c.take (callerBytesIn pre a c k)) ++
+        pending pre (atStartAfter a (c.take (callerBytesIn pre a c k))) a' ∧
+    (a' = atStartAfter a (c.take (callerBytesIn pre a c k)) ∨
+      (atStartAfter a (c.take (callerBytesIn pre a c k)) = true ∧ a' = false)) := by
+  induction c generalizing a k with
+  | nil =>
+    simp [cutState, tagged] at h
+    subst h
+    simp [render_nil, callerBytesIn, tagged, atStartAfter, pending]
+  | cons b r ih =>
+    rw [cutState_eq_cutAt, tagged_cons'] at h
+    generalize hq : (if a then pre else []) = q at h
+    have hren : render pre a (b :: r) = q ++ b :: render pre (b == NL) r := by rw [render_cons, hq]
+    have hcb : ∀ k, callerBytesIn pre a (b :: r) k =
+        ((tp q ++ (b, true) :: tagged pre (b == NL) r).take k).countP (·.2) := by
+      intro k; rw [callerBytesIn, tagged_cons', hq]
+    by_cases hk0 : k = 0
+    · subst hk0
+      rw [cutAt_zero] at h
+      cases h
+      simp [hcb, render_nil, atStartAfter, pending]
+    by_cases hk1 : k < q.length
+    · rw [cutAt_inside q _ _ a k (by omega) hk1] at h; cases h
+    by_cases hk2 : k = q.length
+    · subst hk2
+      rw [cutAt_after_prefix q b _ a (by omega)] at h
+      cases h
+      have hn : callerBytesIn pre a (b :: r) q.length = 0 := by
+        rw [hcb, List.take_left' (tp_length q)]
+        exact countP_tp q
+      have ha : a = true := by
+        cases a
+        · simp at hq; subst hq; simp at hk0
+        · rfl
+      subst ha
+      simp only [if_true] at hq
+      subst hq
+      simp [hn, hren, render_nil, atStartAfter, pending]
+    · obtain ⟨k2, rfl⟩ : ∃ k2, k = q.length + 1 + k2 := ⟨k - q.length - 1, by omega⟩
+      rw [cutAt_shift, ← cutState_eq_cutAt] at h
+      obtain ⟨ih1, ih2⟩ := ih (b == NL) k2 h
+      have hn : callerBytesIn pre a (b :: r) (q.length + 1 + k2) = callerBytesIn pre (b == NL) r k2 + 1 := by
+        rw [hcb, callerBytesIn]
+        have : q.length + 1 + k2 = (tp q).length + (1 + k2) := by simp; omega
+        rw [this, List.take_length_add_append, List.countP_append]
+        simp [countP_tp, Nat.add_comm 1 k2, List.take_succ_cons]
+      rw [hn, hren]
+      have : q.length + 1 + k2 = q.length + (k2 + 1) := by omega
+      rw [this, List.take_length_add_append, List.take_succ_cons, ih1]
+      simp only [List.take_succ_cons, render_cons, hq, atStartAfter_cons, List.append_assoc,
+        List.cons_append]
+      exact ⟨trivial, ih2⟩
+
+
+/-- From inside a line, a history that accepts nothing ends inside the line. -/
+theorem finalState_of_accepted_nil (pre : Bytes) (cs : List (Bytes × Option Nat)) (st : Bool)
+    (hacc : accepted pre false cs = []) (hf : finalState pre false cs = some st) : st = false := by
+  induction cs with
+  | nil => simp [finalState] at hf; exact hf
+  | cons c cs ih =>
+    obtain ⟨buf, u⟩ := c
+    cases u with
+    | none =>
+      simp only [accepted, List.append_eq_nil_iff] at hacc
+      obtain ⟨hb, hr⟩ := hacc
+      subst hb
+      simp only [finalState, atStartAfter, List.getLast?_nil] at hf hr
+      exact ih hr hf
+    | some k =>
+      by_cases hb : buf = []
+      · subst hb
+        simp only [accepted, finalState, List.isEmpty_nil, if_true] at hacc hf
+        exact ih hacc hf
+      · simp only [accepted, finalState, List.isEmpty_iff, hb, if_false, List.append_eq_nil_iff] at hacc hf
+        cases hc : cutState pre false buf k with
+        | none => simp [hc] at hf
+        | some a' =>
+          simp only [hc] at hacc hf
+          obtain ⟨ht, hr⟩ := hacc
+          have h2 := (take_render pre false buf k a' hc).2
+          rw [ht] at h2
+          simp only [atStartAfter, List.getLast?_nil] at h2
+          have ha' : a' = false := by
+            rcases h2 with h | ⟨h, _⟩
+            · exact h
+            · cases h
+          subst ha'
+          exact ih hr hf
+
+/-- What the specification of histories leaves with the underlying writer is the rendering of the
+accepted bytes as one text, plus the pending prefix. -/
+theorem history_sink (pre : Bytes) (a : Bool) (cs : List (Bytes × Option Nat)) (st : Bool)
+    (hf : finalState pre a cs = some st) :
+    (history pre a cs).1 =
+      render pre a (accepted pre a cs) ++ pending pre (atStartAfter a (accepted pre a cs)) st := by
+  induction cs generalizing a with
+  | nil =>
+    simp only [finalState, Option.some.injEq] at hf
+    subst hf
+    simp [history, accepted, render_nil, atStartAfter, pending]
+  | cons c cs ih =>
+    obtain ⟨buf, u⟩ := c
+    cases u with
+    | none =>
+      simp only [finalState] at hf
+      simp only [history, accepted, ih _ hf, render_append, atStartAfter_append, List.append_assoc]
+    | some k =>
+      by_cases hb : buf = []
+      · subst hb
+        simp only [finalState, List.isEmpty_nil, if_true] at hf
+        simp only [history, accepted, List.isEmpty_nil, if_true, ih _ hf]
+      · simp only [finalState, List.isEmpty_iff, hb, if_false] at hf
+        cases hc : cutState pre a buf k with
+        | none => simp [hc] at hf
+        | some a' =>
+          simp only [hc] at hf
+          obtain ⟨h1, h2⟩ := take_render pre a buf k a' hc
+          simp only [history, accepted, List.isEmpty_iff, hb, if_false, hc, h1, ih _ hf, render_append,
+            atStartAfter_append, List.append_assoc]
+          congr 1
+          rcases h2 with h | ⟨h, h'⟩
+          · rw [← h]; simp [pending]
+          · rw [h, h']
+            simp only [h'] at hf
+            by_cases hacc : accepted pre false cs = []
+            · have := finalState_of_accepted_nil pre cs st hacc hf
+              subst this
+              simp [hacc, render_nil, atStartAfter, pending]
+            · obtain ⟨x, r, hx⟩ := List.exists_cons_of_ne_nil hacc
+              rw [atStartAfter_ne_nil hacc true false]
+              simp [hx, render_cons, pending]
 
 end Goyang.Lemmas.Indent
